@@ -16,9 +16,12 @@ Steps are what the interposers of harness/interpose.go record on the real server
   store.Get / store.Set / store.Delete / store.List
 `store.Set` is split into three micro-steps, because the real `onDiskStore.Set` writes the file
 piecewise (header, nonce, then encrypted blocks) and a process can die in between:
-  setOpen  : file holds header+nonce only  -> `store.Get` answers EMPTY BYTES, no error   (DESIGN #23)
-  setMid   : some blocks written           -> `store.Get` fails (decrypt / LZ4 error)
+  setOpen  : file holds header+nonce only  -> partial
+  setMid   : some blocks written           -> partial
   setEnd   : complete
+`store.Get` of a partial file FAILS in both cases (since /repo ad3c4e0 the LZ4 reader's io.EOF on a
+file cut right after the nonce is reported instead of being swallowed - DESIGN #23, repaired), so
+`State.getLiteral` falls back to the connector.
 Core Lean only.
 -/
 namespace Gluon.Crash
@@ -48,7 +51,7 @@ def litOf : MsgId → Lit
   | .new k => k
 
 inductive File where
-  | partialF (silent : Bool)   -- silent: header+nonce only, reads back as empty bytes without error
+  | partialF                   -- truncated: `store.Get` returns an error
   | complete (lit : Lit)
 deriving DecidableEq, Repr
 
@@ -143,8 +146,8 @@ def exec (s : St) : Step → St
     match s.tx with
     | some b => { s with db := s.db.applyAll b, tx := none }
     | none => s
-  | .setOpen id => { s with store := s.store.put id (.partialF true) }
-  | .setMid id => { s with store := s.store.put id (.partialF false) }
+  | .setOpen id => { s with store := s.store.put id .partialF }
+  | .setMid id => { s with store := s.store.put id .partialF }
   | .setEnd id l => { s with store := s.store.put id (.complete l) }
   | .del ids => { s with store := (s.store.del ids).1 }
 
@@ -180,8 +183,7 @@ def recover (s0 : St) : St :=
 def fetchOk (st : Store) (r : Row) : Bool :=
   match st r.id with
   | some (.complete l) => l == r.lit
-  | some (.partialF true) => false          -- empty bytes, no error: the wrong literal is served (#23)
-  | some (.partialF false) => r.remote
+  | some .partialF => r.remote              -- Get fails: re-download
   | none => r.remote
 
 def AllFetchable (s : St) : Prop := ∀ r ∈ s.db.rows, fetchOk s.store r = true
@@ -219,6 +221,7 @@ def oneVisibleTx (steps : List Step) : Bool := (chunks steps none).length ≤ 1
     deletion, `new` ids have none unless this operation committed its insertion. -/
 
 structure Abs where
+  redl : List MsgId := []                 -- ids whose rows (if any) are re-downloadable with literal `litOf id`
   newRows : List MsgId := []              -- new ids whose insertion was committed
   delOld : List MsgId := []               -- old ids whose deletion was committed
   files : List (MsgId × File) := []       -- files this operation has written completely / partially
@@ -253,18 +256,21 @@ def Abs.commit (a : Abs) (b : List Stmt) : Abs :=
            tx := none }
 
 /-- STRUCTURAL FACT 2 (`listed_is_fetchable`): the step is allowed in abstract state `a`:
-    * a cache file is only written / deleted for an id that has no committed row,
+    * a cache file is only written for an id that has no committed row, or whose rows can be re-downloaded
+      (then the complete file must hold that literal); it is only deleted for an id without a committed row,
     * a transaction that inserts a row commits only when the complete file with that literal is there,
     * a transaction does not insert and delete the same id, and inserts only fresh ids. -/
 def Abs.ok (a : Abs) : Step → Bool
-  | .setOpen id | .setMid id | .setEnd id _ => !a.mayHaveRow id
+  | .setOpen id | .setMid id => !a.mayHaveRow id || a.redl.contains id
+  | .setEnd id l => !a.mayHaveRow id || (a.redl.contains id && l == litOf id)
   | .del ids => ids.all (fun id => !a.mayHaveRow id)
   | .commit =>
     match a.tx with
     | some b =>
       let ins := b.flatMap stmtInserts
       let del := b.flatMap stmtDeletes
-      ins.all (fun id => a.file id == some (.complete (litOf id)) && !a.mayHaveRow id && !del.contains id)
+      ins.all (fun id => a.file id == some (.complete (litOf id)) && !a.mayHaveRow id && !del.contains id
+                         && !a.redl.contains id)
     | none => true
   | _ => true
 
@@ -277,8 +283,8 @@ def Abs.exec (a : Abs) : Step → Abs
   | .commit => match a.tx with
     | some b => a.commit b
     | none => a
-  | .setOpen id => a.setFile id (.partialF true)
-  | .setMid id => a.setFile id (.partialF false)
+  | .setOpen id => a.setFile id .partialF
+  | .setMid id => a.setFile id .partialF
   | .setEnd id l => a.setFile id (.complete l)
   | .del ids => a.forget ids
 
@@ -286,7 +292,9 @@ def disciplinedFrom : List Step → Abs → Bool
   | [], _ => true
   | st :: r, a => a.ok st && disciplinedFrom r (a.exec st)
 
-def disciplined (steps : List Step) : Bool := disciplinedFrom steps {}
+/-- `redl`: the ids the operation may re-download (every row with such an id must be re-downloadable, see
+    `Redl` in Lemmas/Crash.lean) -/
+def disciplined (steps : List Step) (redl : List MsgId := []) : Bool := disciplinedFrom steps { redl := redl }
 
 /-! ### statement table: which `db.Transaction` methods change the acknowledged state -/
 
@@ -368,6 +376,10 @@ def flushTx (clearRecent : Nat := 0) : List Step :=
 /-- second transaction of `stateDBWrite`: `QueueOrApplyStateUpdate` (no statement when not idling) -/
 def updatesTx : List Step := txS []
 
+/-- `State.ApplyUpdate` in the goroutine of the open session (selected on mb1): one transaction per queued
+    state update that passes the update's filter (the responder is only queued: no statement) -/
+def applyTx (n : Nat := 1) : List Step := rep n (txS [])
+
 open MsgId in
 /-- The storage steps of one IMAP command / connector update, from the first byte of the command to its
     tagged reply (session handler -> internal/state -> internal/backend). `inst` selects the scripted
@@ -427,7 +439,8 @@ def stepsOf : String → Nat → Option (List Step)
       let nMb := if inst = 1 then 2 else 1
       some (txS ([q "GetMessageIDFromRemoteID"] ++ rep nMb [q "GetMailboxIDFromRemoteID"] ++ setS (new 1) ++
                  [q "CreateMessages" [new 1]] ++
-                 rep nMb [q "MailboxFilterContains", q "GetMailboxMessageCountAndUID", q "AddMessagesToMailbox"]))
+                 rep nMb [q "MailboxFilterContains", q "GetMailboxMessageCountAndUID", q "AddMessagesToMailbox"]) ++
+            (if inst = 2 then [] else applyTx))
   -- user.applyMessageFlagsUpdated
   | "cflags", inst => some (
       rdS ["MessageExistsWithRemoteID"] ++
@@ -437,25 +450,26 @@ def stepsOf : String → Nat → Option (List Step)
       rdS ["MessageExistsWithRemoteID"] ++
       txS ([q "GetMessageIDFromRemoteID", q "MailboxTranslateRemoteIDs", q "GetMessageMailboxIDs"] ++
            (if inst = 1 then [q "RemoveMessagesFromMailbox"] else [q "GetMailboxMessageCountAndUID", q "AddMessagesToMailbox"]) ++
-           [q "GetMessagesFlags"]))
+           [q "GetMessagesFlags"]) ++ (if inst = 2 then applyTx else []))
   -- user.applyMessageDeleted: mark the row, remove it from every mailbox. Row and file stay until a
   -- session is released or the next start-up.
   | "cdeleted", inst => some (
       txS ([q "MarkMessageAsDeletedWithRemoteID" [old 1], q "GetMessageIDFromRemoteID", q "GetMessageMailboxIDs"] ++
-           rep (if inst = 0 then 1 else 2) [q "RemoveMessagesFromMailbox"]))
+           rep (if inst = 0 then 1 else 2) [q "RemoveMessagesFromMailbox"]) ++ (if inst = 0 then [] else applyTx))
   -- user.applyMessageUpdated with a changed literal: old row marked deleted, new row created, THEN the new
   -- literal is stored - all inside one transaction
   | "cupdated", inst => some (
       rdS ["GetMessageIDFromRemoteID"] ++
       txS ([.get (old 1), q "GetMessageMailboxIDs", q "RemoveMessagesFromMailbox",
             q "MarkMessageAsDeletedAndAssignRandomRemoteID" [old 1], q "CreateMessages" [new 1]] ++ setS (new 1) ++
-           rep (if inst = 1 then 2 else 1) [q "GetMailboxIDFromRemoteID", q "GetMailboxMessageCountAndUID", q "AddMessagesToMailbox"]))
+           rep (if inst = 1 then 2 else 1) [q "GetMailboxIDFromRemoteID", q "GetMailboxMessageCountAndUID", q "AddMessagesToMailbox"]) ++
+      (if inst = 1 then applyTx else []))
   -- user.removeState (session released): rows marked deleted are deleted in a transaction, then their files
   | "logout", inst =>
       let ids := if inst = 0 then [old 1] else [old 1, old 2]
       some (rdS ["GetMessageIDsMarkedAsDelete"] ++ txS [q "DeleteMessages" ids] ++ ids.map (fun id => .del [id]))
-  -- State.getLiteral when the cache file is missing: store.Get fails, connector.GetMessageLiteral,
-  -- store.Set on the id of an EXISTING row; flush
+  -- State.getLiteral when the cache file is missing or truncated: store.Get fails, (not for recovered
+  -- messages) connector.GetMessageLiteral, store.Set on the id of an EXISTING row; flush
   | "redownload", _ => some (
       rdS ["GetMailboxByID"] ++ rdS ["GetMessageNoEdges"] ++ [.get (old 1)] ++ setS (old 1) ++ flushTx)
   -- start-up of a user with one message marked deleted (internal/backend/user.go newUser: recovery mailbox,
@@ -472,7 +486,10 @@ def stepsOf : String → Nat → Option (List Step)
 /-- the operations and instances the model covers (the fault enumeration and the trace tie use these) -/
 def modelledOps : List String :=
   ["append", "copy", "move", "expunge", "create", "delete", "rename", "store", "subscribe",
-   "ccreate", "cflags", "cmailboxes", "cdeleted", "cupdated", "logout"]
+   "ccreate", "cflags", "cmailboxes", "cdeleted", "cupdated", "logout", "redownload"]
+
+/-- ids the operation re-downloads: `getLiteral` does this only for messages that are not recovered ones -/
+def redlOf (op : String) : List MsgId := if op = "redownload" then [.old 1] else []
 
 def modelled : List (String × Nat) := modelledOps.flatMap (fun o => [(o, 0), (o, 1), (o, 2)])
 
